@@ -191,9 +191,16 @@ def real_floormod(a, b):
 
 
 def has_quant(f):
-    if is_quantifier(f):
-        return True
-    return any(has_quant(c) for c in f.children())
+    """does the term contain a quantifier or lambda?  (terms are DAGs: every node is visited once)"""
+    todo, seen = [f], set()
+    while todo:
+        t = todo.pop()
+        i = t.get_id()
+        if i in seen: continue
+        seen.add(i)
+        if is_quantifier(t): return True
+        todo.extend(t.children())
+    return False
 
 
 def S_(x):
